@@ -144,8 +144,11 @@ def run(tier, seed, mutant=None, only_validate=False):
                 elif r["cut"] and "outB" in st and st.get("outB") != st.get("out"):
                     clause = "outB"
                 prop = prop_of(c, r["cut"], clause)
+                # an expanding window *is* the aggregation over everything seen so far -- and the only way to reach var / std
+                # without a groupby: it speaks about C06 as much as about C11
+                also = ["C06"] if (c["family"] == "window" and c["winkind"] == "expanding" and prop == "C11") else []
                 res.violations.append(dict(
-                    property=prop, engine="adf", clause=clause,
+                    property=prop, also=also, engine="adf", clause=clause,
                     what="%s.%s(%s=%s)%s%s batches %s%s: after batch #%d the pipeline emitted %s, pandas on the data seen gives %s%s%s" % (
                         c["family"], c["agg"], c["winkind"], c["w"], " frame" if c.get("frame") else "",
                         " pre=" + c["pre"] if c.get("pre") else "", json.dumps(batches[:got[0]]),
